@@ -6,7 +6,7 @@ use std::io::Write;
 
 use serde::{Deserialize, Serialize};
 
-use crate::check::{classify_noreturn, mk_violation, RefTable, Violation, CHILD_TIMEOUT_MS};
+use crate::check::{classify_noreturn, mk_violation, RefTable, Violation};
 use crate::forkrun::run_forked;
 use crate::gen::{Corpus, Gen};
 use crate::ops::{Obs, Op, Opts};
@@ -352,7 +352,7 @@ fn run_one(plan: &Plan, refs: &mut RefTable, rerun: bool, want_sample: bool) -> 
         // already a violation
     }
     if rerun && rep.viol.is_empty() {
-        match run_forked(&plan, CHILD_TIMEOUT_MS) {
+        match run_forked(&plan, crate::check::plan_timeout_ms(&plan)) {
             Ok(o2) => {
                 let same_out = serde_json::to_string(&o2.calls.iter().flatten().map(|c| &c.obs).collect::<Vec<_>>()).unwrap()
                     == serde_json::to_string(&out.calls.iter().flatten().map(|c| &c.obs).collect::<Vec<_>>()).unwrap()
@@ -428,6 +428,7 @@ pub fn work(gen: &Gen, cfg: &WorkerCfg) {
     for (stratum, total) in [("A", cfg.tier.a), ("B", cfg.tier.b), ("C", cfg.tier.c)] {
         let mut i = cfg.w;
         let mut watchdogs = 0u32;
+        let mut noreturns = 0u32;
         while i < total {
             let mut plan = match stratum {
                 "A" => gen.plan_a(i, cfg.tier.a_k),
@@ -437,6 +438,18 @@ pub fn work(gen: &Gen, cfg: &WorkerCfg) {
             let before = (refs.computed, refs.crashed);
             if stratum != "A" {
                 drop_unusable_calls(&mut plan, &mut refs);
+            }
+            if noreturns >= 2 {
+                // two executions of this stratum already failed to return on this worker and
+                // were reported; every further one would cost another two watchdog periods
+                emit(&ExecReport {
+                    stratum: stratum.to_string(),
+                    i,
+                    herr: Some("skipped: two executions of this stratum did not return on this worker (reported as violations)".into()),
+                    ..Default::default()
+                });
+                i += cfg.nw;
+                continue;
             }
             let rerun = i % 50 == 7;
             let want_sample = i < cfg.samples_per_stratum;
@@ -456,8 +469,9 @@ pub fn work(gen: &Gen, cfg: &WorkerCfg) {
                 plan.shuttle = false;
                 degraded = true;
                 rep = run_one(&plan, &mut refs, false, false);
-            } else if rep.viol.iter().any(|v| v.element == "no-return") {
-                watchdogs += 1;
+            }
+            if rep.viol.iter().any(|v| v.element == "no-return") {
+                noreturns += 1;
             }
             rep.degraded = degraded;
             rep.engine = if plan.engine.is_empty() { "shuttle".into() } else { plan.engine.clone() };
